@@ -34,7 +34,7 @@ func pkgConst(pkg *packages.Package, name string) (int64, bool) {
 func C06geom(p *load.Program, run *report.Run) {
 	run.Rule("chunk-constants", "chunkByteRows*K = chunkSize, chunkRows = 8*chunkByteRows, chunkRows is a multiple of 64 (word addressing of the packed form)")
 	run.Rule("chunk-length-inverse", "the receiver sends byteRows*C bytes per chunk and the sender recovers byteRows = len(chunk)/C' after rejecting len(chunk)%C'' != 0, with C = C' = K (and C'' = K where the divisibility guard is present)")
-	run.Rule("chunk-stride", "both roles address column i as [i*byteRows:(i+1)*byteRows] and call createLabels with the same width variable")
+	run.Rule("chunk-stride", "in both roles every buffer that is cut into columns is cut with one stride in all its accesses ([i*S+e : (i+1)*S+e] or [i*S+e:]); the matrix handed to createLabels has the stride createLabels gets as width, which is the chunk width recovered from / used for the length on the wire, and the received chunk is cut with that width")
 	run.Rule("chunk-advance", "the receiver advances by rows = min(chunkRows, remaining); the sender by byteRows*8 or min(byteRows*8, remaining)")
 	pkg := p.ByPath[load.Module+"/ot"]
 	if pkg == nil {
@@ -127,57 +127,84 @@ func C06geom(p *load.Program, run *report.Run) {
 			run.Violate("chunk-length-inverse", key, p.Rel(fr.Pos()), fmt.Sprintf("receiver sends width*%d, sender divides by %d and checks %% %d; K=%d", c1, c2, c3, K), nil)
 		}
 		// stride and createLabels width
-		strideOK := func(fd *ast.FuncDecl, w string) (bool, int) {
+		// Every buffer that is cut into columns has one stride: B[X*S+E : (X+1)*S+E] or B[X*S+E:] with the same
+		// S in every access of the function.  The matrix handed to createLabels has the stride that
+		// createLabels is given as width, and the chunk on the wire has the width recovered from (or used
+		// for) its length.
+		strideOK := func(fd *ast.FuncDecl, w string, wire string) (bool, int) {
 			okAll, n := true, 0
-			ast.Inspect(fd.Body, func(nd ast.Node) bool {
-				call, ok := nd.(*ast.CallExpr)
-				if !ok {
-					return true
-				}
-				id, ok := call.Fun.(*ast.Ident)
-				if !ok {
-					return true
-				}
-				switch id.Name {
-				case "createLabels":
-					n++
-					if len(call.Args) != 3 || types.ExprString(call.Args[2]) != w {
-						okAll = false
+			strides := map[string]string{}
+			split := func(e ast.Expr) (idx, stride, extra string, ok bool) {
+				e = ast.Unparen(e)
+				if be, isBin := e.(*ast.BinaryExpr); isBin && be.Op == token.ADD {
+					if m, isM := ast.Unparen(be.X).(*ast.BinaryExpr); isM && m.Op == token.MUL {
+						return types.ExprString(ast.Unparen(m.X)), types.ExprString(m.Y), types.ExprString(be.Y), true
 					}
-				case "prg", "xor", "copy":
-					for _, a := range call.Args {
-						sl, ok := a.(*ast.SliceExpr)
-						if !ok || sl.Low == nil {
-							continue
-						}
-						lo, ok := sl.Low.(*ast.BinaryExpr)
-						if !ok || lo.Op != token.MUL || types.ExprString(lo.X) != "i" {
-							continue
-						}
+					if m, isM := ast.Unparen(be.Y).(*ast.BinaryExpr); isM && m.Op == token.MUL {
+						return types.ExprString(ast.Unparen(m.X)), types.ExprString(m.Y), types.ExprString(be.X), true
+					}
+					return "", "", "", false
+				}
+				if m, isM := e.(*ast.BinaryExpr); isM && m.Op == token.MUL {
+					return types.ExprString(ast.Unparen(m.X)), types.ExprString(m.Y), "", true
+				}
+				return "", "", "", false
+			}
+			ast.Inspect(fd.Body, func(nd ast.Node) bool {
+				switch t := nd.(type) {
+				case *ast.CallExpr:
+					if id, ok := t.Fun.(*ast.Ident); ok && id.Name == "createLabels" {
 						n++
-						if types.ExprString(lo.Y) != w {
-							okAll = false // column addressed with another stride
-						}
-						if sl.High != nil {
-							hi, ok := sl.High.(*ast.BinaryExpr)
-							if !ok || hi.Op != token.MUL || types.ExprString(hi.Y) != w {
-								okAll = false
-							} else if pe, ok := ast.Unparen(hi.X).(*ast.BinaryExpr); !ok || pe.Op != token.ADD || types.ExprString(pe.X) != "i" || types.ExprString(pe.Y) != "1" {
+						if len(t.Args) != 3 || types.ExprString(t.Args[2]) != w {
+							okAll = false
+						} else {
+							base := t.Args[1]
+							if sl, ok := base.(*ast.SliceExpr); ok {
+								base = sl.X
+							}
+							b := types.ExprString(base)
+							if st, seen := strides[b]; seen && st != w {
 								okAll = false
 							}
+							strides[b] = w
+						}
+					}
+				case *ast.SliceExpr:
+					if t.Low == nil {
+						return true
+					}
+					idx, stride, extra, ok := split(t.Low)
+					if !ok {
+						return true
+					}
+					n++
+					b := types.ExprString(t.X)
+					if st, seen := strides[b]; seen && st != stride {
+						okAll = false // the same buffer cut with two different strides
+					}
+					strides[b] = stride
+					if t.High != nil {
+						hIdx, hStride, hExtra, hok := split(t.High)
+						if !hok || hStride != stride || hExtra != extra || (hIdx != idx+" + 1" && hIdx != "1 + "+idx) {
+							okAll = false
 						}
 					}
 				}
 				return true
 			})
+			if wire != "" {
+				if st, seen := strides[wire]; seen && st != w {
+					okAll = false
+				}
+			}
 			return okAll, n
 		}
-		okS, nS := strideOK(fs, sWidth)
-		okR, nR := strideOK(fr, widthVar)
+		okS, nS := strideOK(fs, sWidth, chunkVar)
+		okR, nR := strideOK(fr, widthVar, "")
 		if okS && okR && nS >= 3 && nR >= 3 {
 			run.OK("chunk-stride", key, p.Rel(fs.Pos()), fmt.Sprintf("%d+%d column accesses with stride %s/%s", nS, nR, sWidth, widthVar))
 		} else {
-			run.Violate("chunk-stride", key, p.Rel(fs.Pos()), "a column is addressed with a stride other than the chunk's byteRows, or createLabels gets another width", nil)
+			run.Violate("chunk-stride", key, p.Rel(fs.Pos()), "a buffer is cut into columns with two different strides, the matrix handed to createLabels or the received chunk is cut with a stride other than the chunk's width, or createLabels gets another width", nil)
 		}
 		// advance
 		ofsOf := func(fd *ast.FuncDecl) string {
